@@ -162,4 +162,35 @@ CoarsenFace(f, m) == <<f[1], CoarsenCoord(f[2], m), CoarsenCoord(f[3], m)>>
 (***************************************************************************)
 NodeX(N, n) == N * Cx(n[1]) + n[2] - n[3]        \* x * N   (x in [-1, 8]); overflow-safe only for N <= 2^27
 NodeY(N, n) == YOf(N, n)                          \* y * N
+
+(***************************************************************************)
+(* Internal / external edges of a cell c of subdivision N, seen at the     *)
+(* finer subdivision N*M (M = 2^delta in NESTED).  (C14)                   *)
+(***************************************************************************)
+Desc(c, M) == {<<c[1], c[2] * M + x, c[3] * M + y>> : x \in 0..(M - 1), y \in 0..(M - 1)}
+IsDesc(c, M, o) == o[1] = c[1] /\ o[2] \div M = c[2] /\ o[3] \div M = c[3]
+Sub(c, M, x, y) == <<c[1], c[2] * M + x, c[3] * M + y>>
+(* descendants touching the border of c *)
+InternalEdgeSet(c, M) == {Sub(c, M, x, y) : x \in {0, M - 1}, y \in 0..(M - 1)} \cup
+                         {Sub(c, M, x, y) : x \in 0..(M - 1), y \in {0, M - 1}}
+(* the closed walk S -> E -> N -> W -> (S): 4M - 4 cells for M >= 2 *)
+InternalEdgeWalk(c, M) ==
+  [k \in 1..(M - 1) |-> Sub(c, M, k - 1, 0)] \o          \* south-east side, from S towards E
+  [k \in 1..(M - 1) |-> Sub(c, M, M - 1, k - 1)] \o      \* north-east side, from E towards N
+  [k \in 1..(M - 1) |-> Sub(c, M, M - k, M - 1)] \o      \* north-west side, from N towards W
+  [k \in 1..(M - 1) |-> Sub(c, M, 0, M - k)]             \* south-west side, from W towards S
+InternalCorner(c, M, d) == CASE d = "S" -> Sub(c, M, 0, 0) [] d = "E" -> Sub(c, M, M - 1, 0)
+                             [] d = "W" -> Sub(c, M, 0, M - 1) [] d = "N" -> Sub(c, M, M - 1, M - 1)
+InternalSide(c, M, o) == CASE o = "SE" -> {Sub(c, M, x, 0) : x \in 0..(M - 1)}
+                           [] o = "SW" -> {Sub(c, M, 0, y) : y \in 0..(M - 1)}
+                           [] o = "NE" -> {Sub(c, M, M - 1, y) : y \in 0..(M - 1)}
+                           [] o = "NW" -> {Sub(c, M, x, M - 1) : x \in 0..(M - 1)}
+Ordinals == {"SE", "SW", "NE", "NW"}
+(* external cells filed by the side / the corner of c they face *)
+ExternalSide(N, c, M, o) == UNION {NeighAt(N * M, e, o) : e \in InternalSide(c, M, o)}
+ExternalCorner(N, c, M, d) == NeighAt(N * M, InternalCorner(c, M, d), d)
+ExternalEdgeFiled(N, c, M) == UNION {ExternalSide(N, c, M, o) : o \in Ordinals} \cup
+                              UNION {ExternalCorner(N, c, M, d) : d \in Cardinals}
+(* geometric definition: cells of the finer subdivision outside c and adjacent to it *)
+ExternalEdgeGeo(N, c, M) == {o \in UNION {Neigh(N * M, e) : e \in InternalEdgeSet(c, M)} : ~IsDesc(c, M, o)}
 =======================================================================
